@@ -77,12 +77,12 @@ var (
 )
 
 type TaskCtx struct {
-	ID    int
-	s     *Sched
-	down  [2]int
-	Local any    // task-local record, read by the scheduler goroutine after the join
+	ID      int
+	s       *Sched
+	down    [2]int
+	Local   any // task-local record, read by the scheduler goroutine after the join
 	aborted bool
-	Panic string // panic escaping the task body
+	Panic   string // panic escaping the task body
 }
 
 type Strategy struct {
